@@ -68,7 +68,7 @@ fn float_case<const N: usize>() {
 #[kani::unwind(6)]
 fn c10_int_syntax_len0_3() { int_case::<0>(); int_case::<1>(); int_case::<2>(); int_case::<3>(); }
 
-// @verif prop=C10 class=bounded tier=thorough bound="all ASCII strings of length 4,5" targets="IntValue::valid_syntax" timeout=1800
+// @verif prop=C10 class=bounded tier=thorough bound="all ASCII strings of length 4,5" targets="IntValue::valid_syntax" timeout=1500
 #[kani::proof]
 #[kani::unwind(8)]
 fn c10_int_syntax_len4_5() { int_case::<4>(); int_case::<5>(); }
@@ -93,12 +93,7 @@ fn c10_float_syntax_len2() { float_case::<2>(); }
 #[kani::unwind(6)]
 fn c10_float_syntax_len3() { float_case::<3>(); }
 
-// @verif prop=C10 class=bounded tier=thorough bound="all ASCII strings of length 4" targets="FloatValue::valid_syntax,FloatValue::valid_fractional_syntax,IntValue::valid_syntax" timeout=3000
+// @verif prop=C10 class=bounded tier=thorough bound="all ASCII strings of length 4" targets="FloatValue::valid_syntax,FloatValue::valid_fractional_syntax,IntValue::valid_syntax" timeout=1500
 #[kani::proof]
 #[kani::unwind(7)]
 fn c10_float_syntax_len4() { float_case::<4>(); }
-
-// @verif prop=C10 class=bounded tier=thorough bound="all ASCII strings of length 5" targets="FloatValue::valid_syntax,FloatValue::valid_fractional_syntax,IntValue::valid_syntax" timeout=6000
-#[kani::proof]
-#[kani::unwind(8)]
-fn c10_float_syntax_len5() { float_case::<5>(); }
